@@ -133,6 +133,7 @@ def spd_rules(kind, member):
     return [
         Guard(r"pika::intrusive_ptr<shared_state>\s+\w+\s*[({]\s*this\s*[)}]\s*;", "vx_ref_acquire(self);", "vx_ref_release(self);", None),
         Sub(r"\bos\.reset\(\);", "os_reset(self);", None),
+        Sub(r"\bos\.has_value\(\)", "os_has_value(self)", None),
         Sub(r"(?<![\w.>])predecessor_done\s*=\s*([^;=]+);", r"atomic_store_bool(&self->predecessor_done, \1);", None),
         Guard(r"std::lock_guard<mutex_type>\s+(\w+)\s*[({]\s*mtx\s*[)}]\s*;", r"struct ulock \1 = ulock_make(&self->mtx);", r"ulock_dtor(&\1);", None),
     ] + CONT_RULES[kind] + [Members([member])]
